@@ -4,13 +4,11 @@
 #  background runs using /repo are not disturbed)
 set -e
 D="$(cd "$1" && pwd)"; TIER="${2:-quick}"
-WT=/var/tmp/wt/seedrun
+WT=/var/tmp/wt/seedrun_$$   # one scratch worktree per invocation, removed afterwards
 PID=$(/venv/bin/python -c "import json,sys; print(json.load(open('$D/meta.json'))['property'])")
-git -C /repo worktree list | grep -q "$WT" || git -C /repo worktree add -q --detach "$WT" HEAD
-git -C "$WT" checkout -q --detach "$(git -C /repo rev-parse HEAD)"
-git -C "$WT" checkout -q -- .
+git -C /repo worktree add -q --detach "$WT" HEAD
 git -C "$WT" apply "$D/patch.diff"
 cd "$(dirname "$0")/.."
 VF_REPO="$WT" VF_OUT=/verif/out/seedruns ./vf check "$PID" --tier "$TIER" > "$D/check_$TIER.log" 2>&1 && RC=0 || RC=$?
-git -C "$WT" checkout -q -- .
+git -C /repo worktree remove --force "$WT"
 echo "$D property=$PID tier=$TIER exit=$RC $(grep -c '^VIOLATION' "$D/check_$TIER.log") violation lines"
